@@ -249,8 +249,8 @@ def run_shard(spec, shard):
         # every four-character field after "\\u" over an alphabet of hex digits and of characters that number parsers
         # elsewhere tolerate (blanks, signs, underscore, radix prefix, non-ASCII digits): valid iff four HEXDIG
         import itertools
-        alpha = ["0", "4", "A", "f", " ", "\t", "+", "_", "x", "\n"] if tier == "quick" else \
-                ["0", "1", "4", "9", "A", "f", "D", " ", "\t", "\n", "\r", "+", "-", "_", "x", "\u0664", "\uff21", "g", "\x0c", "\u00a0"]
+        alpha = ["0", "4", "A", "f", " ", "\t", "+", "_", "x", "\n", "\x11", "\x19"] if tier == "quick" else \
+                ["0", "1", "4", "9", "A", "f", "D", " ", "\t", "\n", "\r", "+", "-", "_", "x", "\u0664", "\uff21", "g", "\x0c", "\u00a0", "\x10", "\x11", "\x16", "\x19", "\x01", "G", "`", "@"]
         hexd = set("0123456789abcdefABCDEF")
         fields = ["".join(t) for t in itertools.product(alpha, repeat=4)][spec["part"]::spec["parts"]]
         for fld in fields:
